@@ -102,7 +102,13 @@ def handle_path_command(args: argparse.Namespace) -> None:  # noqa: PLR0912, D10
     if args.query is not None:
         query = args.query
     else:
-        query = args.query_file.read().strip()
+        try:
+            query = args.query_file.read().strip()
+        except UnicodeDecodeError as err:
+            if args.debug:
+                raise
+            sys.stderr.write(f"query file decode error: {err}\n")
+            sys.exit(1)
 
     try:
         path = jsonpath.JSONPathEnvironment().compile(query)
